@@ -33,7 +33,7 @@ def run_case(case, cx):
     d, b1, b2 = pairs.build_pair(cx, m, m2, cfg, full_debug=False)
     cx.cls(*["rw=" + k for k in set(info["kinds"])])
     cx.cls("lang=" + m["lang"], "cc=" + cfg["cc"], "dwarf=%d" % cfg["dwarf"], "kind=" + cfg["kind"])
-    if set(info["kinds"]) & {"move_tu", "blank_lines", "reverse_defs"}:
+    if set(info["kinds"]) & {"move_tu", "blank_lines", "reverse_defs", "link_order"}:
         cx.nt(case)
     for a, b, tag in ((b1, b2, "fwd"), (b2, b1, "rev")):
         r = pairs.abidiff(cx, a, b)
